@@ -46,6 +46,7 @@ def prop(pid, sub, rule, quick=None, thorough=None, **kw):
 prop("C01", "c01",
      "cases = generated registration sequences (profiles sparse-wide/dense/funnel/mixed/batchy/dep-fans/tiny; dyn+static systems, deps, hints, barriers, batches <=3 deep) built into a real dispatcher; "
      "every plan goes through the layout oracle, every 6th is executed 2-3 times on a pool of 1/2/3/4/8/16 threads via dispatch/dispatch_par/dispatch_seq/async under jitter, forced overlap or a scripted interleaving and judged by the event-log oracle. "
+     "Executed plans also contain: RunNow::run_now as entry point, async rounds with two back-to-back dispatch requests and a peek (running / world / wait_without_tl) before wait, a system that panics in the first dispatch (caught; ordering and isolation are judged on what ran), registration attempts that fail and are caught between the registrations, and systems with 9..14 writes. "
      "A case is counted as distinct non-trivial by (layout hash, pool size, first event-order hash) when the plan has >=1 conflicting pair, the layout has a stage with >=2 groups and >=1 overlap of unordered systems was actually observed in the log.",
      thorough=[shards(name="main"), san("tsan", name="tsan", scale=0.25), miri(rayon=True, name="miri", args=["--tiny"], scale=0.0002)])
 
@@ -77,6 +78,7 @@ prop("C12", "c12",
 prop("C04", "c04",
      "cases = generated plans (1..600 systems, funnels that fill groups, dozens to hundreds of stages, batches nested with k=0..3 inner dispatches incl. MultiDispatcher, thread-local systems) x pool 1..16 x a random sequence (length 1..12) of dispatch / dispatch_par / dispatch_seq / dispatch_seq+dispatch_thread_local / dispatch_thread_local calls; "
      "after every call the per-system run counters are compared with a reference count model (batch members multiply by the controller's k along the nesting); a third of the calls on small plans are monitored and the event log is checked (no re-entry, epochs do not overtake, nothing outside the call); the layout must hold every registered system exactly once; SendDispatcher after try_into_sendable likewise. "
+     "Call sequences also contain RunNow::run_now and, now and then, a call in which a system panics (caught; counts are re-baselined and every later call is exact again); every 5th case drives the async dispatcher (dispatch requests spaced arbitrarily, wait / wait_without_tl / world / running) under the same count model. "
      "distinct non-trivial = (layout hash, call-sequence hash) with >=2 stages or a batch, and a sequence of >=2 calls.")
 
 prop("C19", "c19",
@@ -88,6 +90,7 @@ prop("C19", "c19",
 
 prop("C20", "c20",
      "cases = generated builders (names with spaces, dashes, slashes, unicode; 10-60% unnamed systems; batches; empty builders); `{:?}` and `{:#?}` of every builder level (inner builders just before add_batch, the top builder before build) under catch_unwind, parsed with a strict seq!/par!/seq! grammar and compared positionally with the executed layout (shape hook + identification run): stage/group/size structure, total count, and the sanitised name at every position of a named system (any non-empty token is accepted for unnamed ones). "
+     "A fifth of the builders also see registration attempts that fail (unknown dependency / reused name) and are caught, after which registration continues. "
      "distinct non-trivial = (plan, layout) with a stage of >=2 groups and >=1 unnamed or sanitised name.")
 
 prop("C18", "c18",
@@ -97,11 +100,13 @@ prop("C18", "c18",
 
 prop("C13", "c13",
      "cases = generated plans with batches nested 0..3 deep (HCtl and MultiDispatcher controllers with library SystemData as declared data), static library-typed systems, dynamic systems and thread-local systems, set up 1..3 times in worlds where a random subset of the 32 resources pre-exists with sentinel values, with inserts/removes between rounds, then disposed; every 8th case uses AsyncDispatcher::setup. "
+     "setup and dispose are called through the inherent methods or through the dispatcher's RunNow impl (RunNow::setup, RunNow::dispose on the boxed dispatcher). "
      "Oracles: per-system setup counter == number of setup calls, dispose counter == 1 (any depth, thread-local included); world before/after against a reference (pre-existing values untouched, default-providing accessors create the default, Option/Expect create nothing). "
      "distinct non-trivial = (plan hash, initial-world density) with a batch member or thread-local system and >=1 pre-existing resource.")
 
 prop("C05", "c05",
      "cases = generated plans (static library-typed and dynamic systems mixed, thread-local systems, batches; few hot slots so that slots have several writers) instantiated twice: a parallel twin (dispatch / dispatch_par on a pool of 1..16 under jitter, forced overlap or a random scripted interleaving of one stage) and a twin run with dispatch_seq; after every one of 2-4 dispatches the order-sensitive world digest (a, b, hist, padding of all 32 slots) and the per-system state digests must be equal; a canary pair (a != b) seen by any system is a torn value. "
+     "Every 6th case uses the async dispatcher as the parallel twin (dispatch, optional running()/while running(){}/world()/wait_without_tl(), wait). "
      "The --exhaustive leg enumerates *every* linear extension of the fetch/body/release steps of one small stage (2x1, 3x1, 2+1 systems in quick; up to 4x1, 2x2, 3+1 in thorough) by token passing. "
      "The xcfg leg runs the same cases in a build of the crate *without* the `parallel` feature (dispatch is then sequential by construction) and compares the final digests with the parallel twin's. "
      "distinct non-trivial = (layout hash, overlap/script evidence) where the parallel twin followed a script exactly or >=1 overlap of unordered systems was observed in its log, and some slot has >=2 writers.",
@@ -110,24 +115,28 @@ prop("C05", "c05",
 
 prop("C11", "c11",
      "cases = (stage width w in 2..16, pool size w or 16, context in {user pool, default pool, inside a batch (HCtl or MultiDispatcher), async dispatcher}, with/without a preceding stage) x 30 (quick) / 100 (thorough) dispatches: the heads of all w groups rendezvous inside run (bounded 10 s); a failed rendezvous is a violation only if the control - w plain closures spawned with pool.scope on the same (or an equivalently configured default) pool - completes, otherwise inconclusive. "
+     "Variations: default pool with a narrow batch inside the wide stage, one chain group of two systems among the w groups, a warm-up history of 200..3000 trivial dispatches, two back-to-back async requests, dispatch called from a worker of a different 1..2-thread pool. A failed rendezvous is re-run on a fresh dispatcher (whole scenario) before the control decides. "
      "distinct non-trivial = (w, pool, context, prefix) with w >= 2 and every rendezvous completed.",
      quick=[shards(nshards=4, max_par=4)], thorough=[shards(nshards=8, max_par=4)])
 
 prop("C14", "c14",
      "cases = generated plans x up to 6 panic positions each (any system in any group/stage, thread-local systems, systems inside batches, batch controllers, panics in the middle of fetching, two victims at once) x dispatch / dispatch_par / dispatch_seq / dispatch_seq+thread_local x sibling phase (siblings of the victim's stage parked before fetch, parked inside run, or already finished at the instant of the panic, by gates). "
      "Oracles: catch_unwind returns Err with the payload token of a system whose injected panic really fired; transitive dependents of it (and of the batches it propagated through) have run count 0; no count above once; every resource cell probes as free; the next dispatch runs every system exactly once in a clean order. "
+     "A third of the victims inside a hand-written batch controller meet a controller that catches the inner panic and dispatches its inner dispatcher again in the same frame: that dispatch must run every inner system exactly once. "
      "distinct non-trivial = (plan, victim, phase, mode) where the victim fired and has a sibling in its stage or a dependent.",
      level="fault_enumeration",
      thorough=[shards(name="main"), miri(rayon=True, name="miri", args=["--tiny"], scale=0.0005)])
 
 prop("C15", "c15",
      "cases = generated plans built with build_async on pools of 1..16 x random call histories (3..15 ops over dispatch / dispatch with one system parked inside run / running / wait / wait_without_tl / world / world_mut / setup). While a system is provably parked inside run, running() is polled 1..20 times and must be true, then a blocking accessor is called while a helper opens the latch only after the caller announced it is about to block. "
+     "Histories also contain while running() {} polling, the deprecated res()/mut_res(); every 40th case is a plan of 257..330 stages. "
      "After every accessor returns: active systems == 0 and completions == dispatches x systems; running()==false only with all completions; dispatch #n returns only when #n-1 is complete; whole-history event log: every system once per epoch, epochs never overtake; thread-local systems only between wait() marks, on the calling thread, once per wait. "
      "distinct non-trivial = (plan, history) with >=1 poll of running() on a parked system and >=2 dispatches.",
      thorough=[shards(name="main"), san("tsan", name="tsan", scale=0.25)])
 
 prop("C16", "c16",
      "cases = random trees (depth <=5, fan-out <=6) assembled at run time from the real Par/Seq nodes through a boxing adapter, leaves = self-logging systems over 26 writable + 6 read-only slots, a third of the trees poisoned with one conflicting par-sibling access; conflict-free trees are set up and dispatched 2-3 times on pools 1..16 from outside and from inside the pool (also through RunNow). "
+     "Every 8th tree ranges over 128 resources with leaves of up to 12 writes (par nodes mentioning > 64 distinct resources); half of the leaves use an accessor type whose try_new() is Some while accessor() is overridden; setup is called 1..3 times (fresh world / resources removed in between); every 50th case checks that k par leaves rendezvous when dispatch is called from outside, from inside the pool, or from a worker of a different 1-thread pool. "
      "Oracles: Par::with panics (debug assertions are on in this build) <=> the new child conflicts with the children already there; root reads()/writes() == multiset of the leaves'; setup reaches every leaf once; every leaf exactly once per dispatch; within a seq node all leaves of child i end before any leaf of child i+1 enters; conflicting leaves never overlap; every 100th case: k leaves under one par node rendezvous inside run (with a plain-rayon control). "
      "distinct non-trivial = tree-shape hash with depth >=2 and both node kinds (or a completed par rendezvous).",
      thorough=[shards(name="main"), miri(rayon=True, name="miri", args=["--tiny"], scale=0.0004)])
@@ -141,6 +150,7 @@ prop("C08", "c08",
 
 prop("C09", "c09",
      "cases = histories of 80 operations over 8 value types (ZST, u8, [u64;32], String, Vec<u8>, align-16, two drop-tracked types of different size) x 3 dynamic ids: insert, insert_by_id, remove, remove_by_id, entry().or_insert(_with), has_value(_raw), get_mut (+overwrite), get_mut_raw, fetch/fetch_mut, try_fetch(_mut), try_fetch(_mut)_by_id (+overwrite), setup of default-providing and of optional/expecting accessors, exec; 15% of the id-taking calls carry a different type argument (different size). "
+     "One drop-tracked type has a destructor that can be made to panic: replacing such a value (caught) must still leave the new value in place. "
      "Oracles: every result against a reference map; after every step has_value_raw == model for all 24 keys and the concrete type_id of every stored box == the key's type; mismatching calls must panic with the wrong-type-id message and change nothing; at the end every tracked value was dropped exactly once. "
      "distinct non-trivial = history hash with >=1 replace, >=1 successful remove and >=1 mismatching-type call.",
      crash_is_violation=True,
@@ -148,6 +158,7 @@ prop("C09", "c09",
 
 prop("C17", "c17",
      "cases = histories of 70 operations over a MetaTable<dyn Trait> and a world with 12 implementor types (ZST, 1 byte ... 4 KiB, align 16/64, heap-owning): register (with repeats), insert / remove, insert under another dynamic id, get / get_mut on present resources, iter / iter_mut collecting all items, iteration under a live typed exclusive guard, typed writes; every 50th case a CastFrom that returns a different address. "
+     "Iterators are consumed through collect or through skip / step_by / nth / last / take; the wrong cast is also tried on a zero-sized type through get, get_mut, iter and iter_mut. "
      "Oracles: reference registration list (first-registration order) and presence map; get(_mut) is Some <=> registered; every yielded object's self-reported address == the resource's address and its type tag == the concrete type's; iter sequences == [registration order ∩ present under dyn id 0] with model values; shared/exclusive interplay with typed fetches; the bad cast must panic with the library's message. "
      "The thorough tier repeats a quarter of the histories against the crate built with its `nightly` feature (the ptr_metadata implementation of the meta table) on the nightly toolchain. "
      "distinct non-trivial = history hash with a repeated registration and a registered-but-absent type.",
